@@ -219,6 +219,17 @@ func ruleExt1(c *Ctx, r *Reporter) {
 			if ex, ok := v.(*ssa.Extract); ok {
 				v = ex.Tuple
 			}
+			if hc, ok := v.(*ssa.Call); ok {
+				// array, err := helper(.., operand): the helper's first result (checked below to be the asserted operand)
+				if h := staticFn(&hc.Call); h != nil && fnPkgPath(h) == pkgMongokit {
+					for _, a := range hc.Call.Args {
+						if a == ssa.Value(operand) {
+							return true
+						}
+					}
+				}
+				return false
+			}
 			ta, ok := v.(*ssa.TypeAssert)
 			return ok && ta.X == ssa.Value(operand)
 		}
@@ -235,6 +246,74 @@ func ruleExt1(c *Ctx, r *Reporter) {
 			sites++
 			n++
 			lo, hi := lenInterval(fn, isArr, call.Block())
+			// the array may come checked out of a function of the package (array, err := operandArray(name, v)):
+			// what that function has established about the length on its successful returns holds here too
+			allInstrs(fn, func(x ssa.Instruction) {
+				hc, ok := x.(*ssa.Call)
+				if !ok {
+					return
+				}
+				h := staticFn(&hc.Call)
+				if h == nil || h.Blocks == nil || fnPkgPath(h) != pkgMongokit || hc.Call.Signature().Results().Len() != 2 {
+					return
+				}
+				var hp *ssa.Parameter
+				for i, a := range hc.Call.Args {
+					if a == ssa.Value(operand) && i < len(h.Params) {
+						hp = h.Params[i]
+					}
+				}
+				if hp == nil {
+					return
+				}
+				// the caller continues only on the helper's nil error
+				dominated := false
+				for _, ec := range errChecksOf(errorResult(hc)) {
+					if ec.OkSucc == call.Block() || ec.OkSucc.Dominates(call.Block()) {
+						dominated = true
+					}
+				}
+				if !dominated {
+					return
+				}
+				isArrH := func(v ssa.Value) bool {
+					v = stripValue(v)
+					if ex, ok := v.(*ssa.Extract); ok {
+						v = ex.Tuple
+					}
+					ta, ok := v.(*ssa.TypeAssert)
+					return ok && ta.X == ssa.Value(hp)
+				}
+				hlo, hhi := int64(-1), int64(0)
+				okAll := true
+				for _, ret := range returnsOf(h) {
+					if len(ret.Results) != 2 || !isNilConst(retVal(ret, 1)) {
+						continue
+					}
+					if !isArrH(retVal(ret, 0)) {
+						okAll = false
+						continue
+					}
+					l2, h2 := lenInterval(h, isArrH, ret.Block())
+					if hlo < 0 || l2 < hlo {
+						hlo = l2
+					}
+					if h2 < 0 || hhi < 0 {
+						hhi = -1
+					} else if h2 > hhi {
+						hhi = h2
+					}
+				}
+				if !okAll || hlo < 0 {
+					return
+				}
+				if hlo > lo {
+					lo = hlo
+				}
+				if hhi >= 0 && (hi < 0 || hhi < hi) {
+					hi = hhi
+				}
+			})
 			k := fmt.Sprintf("%s:%s only for a single alternative", funcName(fn), f.Name())
 			his := fmt.Sprint(hi)
 			if hi < 0 {
@@ -287,8 +366,16 @@ func dependsOn(v, target ssa.Value, seen map[ssa.Value]bool) bool {
 		}
 		return nil
 	}
+	var addr ssa.Value
 	if u, ok := v.(*ssa.UnOp); ok && u.Op == token.MUL {
-		if cell := cellOf(u.X); cell != nil {
+		addr = u.X
+	}
+	if sl, ok := v.(*ssa.Slice); ok {
+		// a slice of a local array (composite literal T{a, b}): its elements
+		addr = sl.X
+	}
+	if addr != nil {
+		if cell := cellOf(addr); cell != nil {
 			var visit func(a ssa.Value) bool
 			visit = func(a ssa.Value) bool {
 				refs := a.Referrers()
@@ -638,8 +725,46 @@ func ruleTab8(c *Ctx, r *Reporter) {
 			nv++
 			var vcall *ssa.Call
 			allInstrs(fn, func(in ssa.Instruction) {
-				if call, ok := in.(*ssa.Call); ok && call.Call.StaticCallee() == valFn && vcall == nil {
+				call, ok := in.(*ssa.Call)
+				if !ok || vcall != nil {
+					return
+				}
+				if call.Call.StaticCallee() == valFn {
 					vcall = call
+					return
+				}
+				// a function of the package that validates the handle it is given before it can return nil
+				h := staticFn(&call.Call)
+				if h == nil || h.Blocks == nil || fnPkgPath(h) != pkgLungo {
+					return
+				}
+				for i, a := range call.Call.Args {
+					if stripValue(a) != ssa.Value(hp) || i >= len(h.Params) {
+						continue
+					}
+					var inner *ssa.Call
+					allInstrs(h, func(x ssa.Instruction) {
+						if vc, ok := x.(*ssa.Call); ok && vc.Call.StaticCallee() == valFn && len(vc.Call.Args) > 0 && stripValue(vc.Call.Args[0]) == ssa.Value(h.Params[i]) {
+							inner = vc
+						}
+					})
+					if inner == nil {
+						continue
+					}
+					good := false
+					for _, ec := range errChecksOf(errorResult(inner)) {
+						if failEdgeReturnsError(ec) {
+							good = true
+						}
+					}
+					for _, ret := range returnsOf(h) {
+						if len(ret.Results) > 0 && isNilConst(retVal(ret, len(ret.Results)-1)) && !instrDominates(inner, ret) {
+							good = false
+						}
+					}
+					if good && len(errChecksOf(errorResult(call))) > 0 {
+						vcall = call
+					}
 				}
 			})
 			key := funcName(fn) + ":validates its handle"
@@ -1218,7 +1343,7 @@ func ruleRet1(c *Ctx, r *Reporter) {
 	// the loop: an element load list[i] with list = <set>.List, and the counter increment in the same loop
 	var idx ssa.Value
 	var elem *ssa.IndexAddr
-	allInstrs(fn, func(in ssa.Instruction) {
+	coneInstrs(fn, func(in ssa.Instruction) {
 		if ia, ok := in.(*ssa.IndexAddr); ok && isLoadOf(ia.X, listF) && elem == nil {
 			if _, isConst := constInt(ia.Index); !isConst {
 				elem, idx = ia, ia.Index
@@ -1228,6 +1353,33 @@ func ruleRet1(c *Ctx, r *Reporter) {
 	if elem == nil {
 		r.bad("Clean:oplog loop", c.pos(fn.Pos()), "no loop over the oplog's document list found")
 		return
+	}
+	if body := elem.Parent(); body != fn {
+		// the loop lives in a private helper of Clean: its parameters stand for Clean's where the only call passes
+		// them on unchanged
+		for _, hp := range body.Params {
+			root := resolveHelperValue(hp)
+			for name, cp := range params {
+				if root == ssa.Value(cp) && cp.Parent() == fn {
+					params[name] = hp
+				}
+			}
+		}
+		for _, n := range []string{"minSize", "maxSize", "minAge", "maxAge"} {
+			if params[n].Parent() != body {
+				r.unk("Clean:oplog loop", c.pos(elem.Pos()), "the loop is in "+funcName(body)+", which does not receive Clean's "+n+" unchanged")
+				return
+			}
+		}
+		fn = body
+	}
+	paramName := func(p *ssa.Parameter) string {
+		for name, q := range params {
+			if q == p {
+				return name
+			}
+		}
+		return p.Name()
 	}
 	// loop header: the block of the index phi
 	var hdr *ssa.BasicBlock
@@ -1268,7 +1420,7 @@ func ruleRet1(c *Ctx, r *Reporter) {
 			return "i", true
 		}
 		if p, ok := v.(*ssa.Parameter); ok {
-			return p.Name(), true
+			return paramName(p), true
 		}
 		if call, ok := v.(*ssa.Call); ok {
 			if b, ok := call.Call.Value.(*ssa.Builtin); ok && b.Name() == "len" && isLoadOf(call.Call.Args[0], listF) {
